@@ -442,6 +442,12 @@ func appendSnapshotFunctions(b []byte, s *slip.Scope) []byte {
 			// A function that is called by another but is not defined
 			// yet has no description and nothing to save.
 			if fi.Pkg == p && fi.Doc != nil {
+				// The generic function of a slot reader, writer, or
+				// accessor is made by the defclass form. A defgeneric
+				// form after it would remove those methods.
+				if ao, ok := fi.Aux.(interface{ AccessorOnly() bool }); ok && ao.AccessorOnly() {
+					return
+				}
 				fia = append(fia, fi)
 			}
 		})
